@@ -6,11 +6,15 @@ import (
 	"io"
 	"os"
 	"os/exec"
+	"strings"
 )
 
 // runDriver sends the request lines to the Lean driver and returns one answer
 // per request.
 func runDriver(path string, reqs []string) ([]string, error) {
+	if d := os.Getenv("VERIF_DUMP"); d != "" {
+		os.WriteFile(d, []byte(strings.Join(reqs, "\n")+"\n"), 0o644)
+	}
 	cmd := exec.Command(path)
 	cmd.Stderr = os.Stderr
 	in, err := cmd.StdinPipe()
